@@ -1161,6 +1161,31 @@ pub fn run_compound(d: &[u8], t: &mut Tape, o: &mut Obs) {
             adaptors(o, "Compound::next", t, c2);
         }
     }
+    // handed to another thread part-way (a view is `Send`); that thread has a compound of its own
+    if t.choose(64) == 63 {
+        if let Ok(mut c4) = Compound::parse(d) {
+            let k = t.choose(tl.len() + 1);
+            for _ in 0..k {
+                let _ = c4.next();
+            }
+            o.op("Compound::next");
+            let bound = o.iter_bound;
+            let r = std::thread::scope(|sc| {
+                sc.spawn(move || {
+                    let mut own = Compound::parse(BY_COMPOUND).ok();
+                    let _ = own.as_mut().and_then(|c| c.next()).map(|r| r.is_ok());
+                    let n = c4.take(bound + 1).count();
+                    let _ = own.map(|c| c.count());
+                    n
+                })
+                .join()
+            });
+            match r {
+                Ok(n) => o.res(n as u64),
+                Err(e) => std::panic::resume_unwind(e),
+            }
+        }
+    }
     // Debug of the iterator in every state: fresh (above), part-way, exhausted, past the end
     if t.choose(2) == 1 {
         if let Ok(mut c3) = Compound::parse(d) {
